@@ -29,13 +29,15 @@ def run(ctx):
     q = ctx.tier == "quick"
     core.generic_corr(ctx, overlay=ov, pkg="internal/target/remote", run="TestVerif_C09Remote", n=80 if q else 1500,
                       corr_module="Remote.StatusCorr", clause_names=CLAUSES, name="remote", shard=200)
+    core.generic_corr(ctx, overlay=ov, pkg="internal/target/remote", run="TestVerif_C09RemoteSpell", n=80 if q else 1500,
+                      corr_module="Remote.StatusCorr", clause_names=CLAUSES, name="remote_spellings", shard=200)
     core.generic_corr(ctx, overlay=ov, pkg="internal/target/smtp", run="TestVerif_C09Lmtp", n=80 if q else 1500,
                       corr_module="Remote.StatusCorr", clause_names=CLAUSES, name="lmtp", shard=200)
     core.generic_corr(ctx, overlay=ov, pkg="internal/msgpipeline", run="TestVerif_C09Pipe", n=200 if q else 4000,
                       corr_module="Remote.StatusCorr", clause_names=CLAUSES, name="pipeline", shard=400)
     core.generic_corr(ctx, overlay=ov, pkg="internal/msgpipeline", run="TestVerif_C09PipeE2E", n=200 if q else 4000,
                       corr_module="Remote.StatusCorr", clause_names=CLAUSES, name="pipeline_e2e", shard=400)
-    ctx.coverage["rule"] = ("remote: histories of 1-4 transactions over one pooled connection, 1-4 recipients each over case "
+    ctx.coverage["rule"] = ("remote_spellings: one transaction of 2-4 recipients spelling one destination domain in several ways (letter case, A-label / U-label), DATA accepted or refused.  remote: histories of 1-4 transactions over one pooled connection, 1-4 recipients each over case "
                             "variants, non-ASCII local parts, duplicates, an IDN or ASCII domain; next hop with / without "
                             "SMTPUTF8, refused recipients, failing DATA.  lmtp: 1-4 recipients incl. IDN in both spellings, "
                             "per-recipient replies, transfer failures.  pipeline: rewrite tables incl. N-to-1 and status sequences; pipeline end to end: 1-to-N rewrite tables of one pipeline or of two nested ones, forwarding chains whose middle address the client also names, real AddRcpt and BodyNonAtomic over a next hop answering per recipient")
